@@ -8,12 +8,12 @@ import (
 
 // RaceReport is one data race reported by the Go race detector, reduced to its signature.
 type RaceReport struct {
-	Sig     string   `json:"sig"`     // unordered pair of the top fs_db frames of the two accesses
-	Frames  []string `json:"frames"`  // a few frames of each stack
-	Choices []int    `json:"choices"` // schedule of the execution in which it was reported
-	Scenario string  `json:"scenario"`
-	Params  string   `json:"params"`
-	Count   int64    `json:"count"`
+	Sig      string   `json:"sig"`     // unordered pair of the top fs_db frames of the two accesses
+	Frames   []string `json:"frames"`  // a few frames of each stack
+	Choices  []int    `json:"choices"` // schedule of the execution in which it was reported
+	Scenario string   `json:"scenario"`
+	Params   string   `json:"params"`
+	Count    int64    `json:"count"`
 }
 
 func mergeRaces(a, b []RaceReport) []RaceReport {
